@@ -100,15 +100,21 @@ Proof. vm_compute. eexists. repeat split. Qed.
 
 (* non-vacuity of C20_pulse_exact's premises: the state reached above is settled with an exact root aggregate,
    and the sweep at time 7 fires node 2 (time 5) and not node 1 (time 9) *)
-Definition ex_state : state := match run ex_gt ex_pl 50 init_state ex_ops with Some s => s | None => init_state end.
 Example C20_pulse_exact_nonvacuous :
   (forall x k now st, ex_pl x k now st = []) /\ (7 < NEVER)%N /\
-  Good nobody (nd ex_state) /\ is_root (nd ex_state) 0 = true /\ settled (nd ex_state) 0 /\
-  agg (nd ex_state 0) = N.min (sched (nd ex_state 0)) (first_sched_agg (nd ex_state) 0) /\
-  exists s', top_pulse ex_pl 50 ex_state 0 7%N = Some s' /\ hd_error (evs s') = Some (EPulse 2 0 7%N 5%N).
+  exists s, run ex_gt ex_pl 50 init_state ex_ops = Some s /\
+    Good nobody (nd s) /\ is_root (nd s) 0 = true /\ settled (nd s) 0 /\
+    agg (nd s 0) = N.min (sched (nd s 0)) (first_sched_agg (nd s) 0) /\
+    exists s', top_pulse ex_pl 50 s 0 7%N = Some s' /\ hd_error (evs s') = Some (EPulse 2 0 7%N 5%N).
 Proof.
-  split; [reflexivity|]. split; [reflexivity|]. split.
-  - apply (reach_inv ex_gt ex_pl (fun _ _ _ _ => eq_refl) 50 ex_ops). reflexivity.
-  - split; [reflexivity|]. split; [split; reflexivity|]. split; [reflexivity|].
-    vm_compute. eexists. split; reflexivity.
+  split; [reflexivity|]. split; [reflexivity|].
+  assert (E : exists s, run ex_gt ex_pl 50 init_state ex_ops = Some s /\
+                is_root (nd s) 0 = true /\ valid (nd s 0) = true /\ lr (nd s 0) = [] /\
+                agg (nd s 0) = N.min (sched (nd s 0)) (first_sched_agg (nd s) 0) /\
+                exists s', top_pulse ex_pl 50 s 0 7%N = Some s' /\ hd_error (evs s') = Some (EPulse 2 0 7%N 5%N)).
+  { vm_compute. eexists. split; [reflexivity|]. split; [reflexivity|]. split; [reflexivity|]. split; [reflexivity|].
+    split; [reflexivity|]. vm_compute. eexists. split; reflexivity. }
+  destruct E as (s & Hrun & Hroot & Hv & Hlr & Hagg & Hp).
+  exists s. split; [exact Hrun|]. split; [exact (reach_inv ex_gt ex_pl (fun _ _ _ _ => eq_refl) 50 ex_ops s Hrun)|].
+  split; [exact Hroot|]. split; [split; assumption|]. split; assumption.
 Qed.
